@@ -50,6 +50,8 @@ def _drive(args):
                                                     'boundary pair: value lengths %d + %d (running length %d)' % (l1, l2, 14 + s)))
                 tid += 1
     else:
+        if cfgspec[0] == 'pkgvar':      # the packaged carrier assignment is used in this process just before
+            isoc.iso8583.dumps({'MTI': '1240', 'PDS0001': 'warm-up'}, iso_config=isocheck.get_config(('pkg',)))
         for tid in range(lo, hi):
             r = drv.rng(seed, 'c12', cfgspec, codec, tid)
             m = {'MTI': '1240'}
@@ -97,7 +99,7 @@ def run(rep, wd, tier, seed):
     for i, part in enumerate(core.split(l1s, core.NCPU)):
         jobs.append((seed, ('pkg',), ('latin_1', 'cp500')[i % 2], 'pairs', 0, 0, part))
     nrand = 1200 if tier == 'thorough' else 120
-    for cfgspec in (('pkg',), ('gen', 1200 + seed), ('gen', 1201 + seed)):
+    for cfgspec in (('pkg',), ('pkgvar', 0), ('pkgvar', 1), ('gen', 1200 + seed), ('gen', 1201 + seed)):
         for codec in ('latin_1', 'cp037'):
             for lo in range(0, nrand, 200):
                 jobs.append((seed, cfgspec, codec, 'sets', lo, min(nrand, lo + 200), None))
